@@ -6,12 +6,11 @@
  'props': 'Props/C09.v',
  'trusted': ['encoding/csv, encoding/json, encoding/xml decoders (they sit on bufio) are assumed '
              'chunk-invariant; the theorems cover every omniparser / go-corelib / bufio / x-text layer below '
-             'them (source, charmap decoder, StripBOM, bufio.Reader, ByteReadLine, BytesReplacingReader '
-             '1-byte, bufio.Scanner with the split function) and the complete fixed-length and EDI stacks; '
-             'the implementation-side metamorphic oracle covers the whole stack for all seven formats',
+             'them (source, charmap decoder, StripBOM, bufio.Reader, ByteReadLine, BytesReplacingReader (any '
+             'token / replacement), bufio.Scanner with the split function) and the complete fixed-length and '
+             'EDI stacks; the implementation-side metamorphic oracle covers the whole stack for all seven '
+             'formats',
              'bufio.Reader, bufio.Scanner, go-corelib ios (StripBOM, BytesReplacingReader, ByteReadLine, '
              'NewScannerByDelim3), strs.ByteIndexWithEsc and the x/text transform.Reader + charmap decoder '
              'are transcribed from their sources into Model/Chunk.v and compared with the real code on every '
-             'run',
-             'BytesReplacingReader with search tokens longer than one byte (not constructed by omniparser): '
-             'model + correspondence only']}
+             'run']}
